@@ -68,9 +68,13 @@ type t2jOutcome struct {
 // expLen is the length of a previously observed output for this message (0 if unknown).
 func runT2J(w *W, cv *t2j.BinaryConv, desc *thrift.TypeDescriptor, src []byte, env t2jEnv, ctx context.Context, expLen int) t2jOutcome {
 	in := w.AllocData(src, env.InPlace)
+	doc, tailOK := in.B, func() bool { return true }
+	if env.InPlace == simrt.PlaceHeap && len(src)%2 == 0 {
+		doc, tailOK = withTail(src) // the input is a prefix of a larger buffer of the caller's
+	}
 	var res t2jOutcome
 	if !env.DoInto {
-		res.Out, res.Err = cv.Do(ctx, desc, in.B)
+		res.Out, res.Err = cv.Do(ctx, desc, doc)
 	} else {
 		c := env.Prefix
 		switch env.CapMode {
@@ -89,7 +93,7 @@ func runT2J(w *W, cv *t2j.BinaryConv, desc *thrift.TypeDescriptor, src []byte, e
 		for i := 0; i < env.Prefix; i++ {
 			buf = append(buf, byte(0xC0+i%16))
 		}
-		res.Err = cv.DoInto(ctx, desc, in.B, &buf)
+		res.Err = cv.DoInto(ctx, desc, doc, &buf)
 		if len(buf) > cap(buf) {
 			w.Failf("len-exceeds-cap", nil, "DoInto returned len(buf)=%d > cap(buf)=%d (env %s)", len(buf), cap(buf), env)
 		}
@@ -106,7 +110,10 @@ func runT2J(w *W, cv *t2j.BinaryConv, desc *thrift.TypeDescriptor, src []byte, e
 		}
 		res.Out = buf[env.Prefix:]
 	}
-	if !bytes.Equal(in.B, src) {
+	if !tailOK() {
+		w.Failf("input-modified", nil, "conversion wrote into the caller's buffer behind the end of its input")
+	}
+	if !bytes.Equal(in.B, src) || !bytes.Equal(doc, src) {
 		w.Failf("input-modified", nil, "conversion modified its input")
 	}
 	return res
